@@ -7,7 +7,7 @@
    plus the hand-off `instr_of_call` below: WHICH gate-set call a method call issues and in which order it passes the method's
    arguments (circuit.py BinaryCircuit.X / SX / CNOT / ECR / relaxation / bitflip).  The hand-off is tied to the code by the
    regenerated trace table gen_handoff (coq/Gen/GenCircuit.v): own_trace below re-derives, from instr_of_call + do_instr + bstep,
-   the gate name, the argument order and the placement of every BinaryCircuit entry of that table (Props/C08.v, block 14).
+   the gate name, the argument order, the placement and the phase writes of every BinaryCircuit entry of that table that the simulator uses (Props/C08.v, block 16: C08_own_handoff_tied).
    No proofs here. *)
 From Coq Require Import List NArith ZArith Bool Arith String.
 Require Import QG.Base.Res QG.Model.SimRun QG.Model.NoiseFreeRun QG.Model.SimLoop QG.Model.Builders.
